@@ -108,8 +108,8 @@ Example exn_handler_runs_iff_nonvacuous :
 Proof. split; apply ExnProofs.eval_iff_ref_run; reflexivity. Qed.
 
 (* "A non-matching exception continues to the nearest enclosing matching handler": p raises k inside
-   blocks pre (innermost first) none of which admits k, inside a block that does, inside anything:
-   none of the skipped handlers runs, the admitting one is entered with k at its own depth. *)
+   blocks pre (innermost first) none of which accepts k, inside a block that does, inside anything:
+   none of the skipped handlers runs, the accepting one is entered with k at its own depth. *)
 Theorem exn_nearest_matching_handler : forall pre fs h p st t1 k m,
   depth st + nesting (chain (pre ++ [(fs, h)]) p) <= exc_max_depth ->
   ref_run (S (length pre + depth st)) p = (t1, RRaised k m) ->
